@@ -73,7 +73,11 @@ def run(tier, seed, build):
                 "recursion; argument shapes param/attr/subscript/call/literal/tuple/keyword/omitted; signatures over the "
                 "five parameter kinds; random definition order) + a corpus of known-finding witnesses. The real "
                 "FileAnalyser produces the IR; the real generate_results_from_ir, the Lean model and the closure oracle "
-                "run on that IR. non-trivial = distinct program with >= 1 resolvable call")
+                "run on that IR. non-trivial = distinct program with >= 1 resolvable call. Pipeline stage: generated whole modules "
+                "(plain / async functions, named lambdas, classes with __init__, static methods, namedtuples, enums, declared / "
+                "ignored / excluded functions, imports, module-level statements of every kind) through the real main() with "
+                "-o results -f 0 vs the Lean model Pipeline.run: outcome, printed document, ordered diagnostics of all three "
+                "stages, IR after result generation; a sample through the CLI subprocess")
     rng = random.Random(seed)
     n_rand, n_clean = (250, 250) if tier == "quick" else (4000, 3000)
     programs = [(name, src) for name, src in CORPUS]
@@ -139,10 +143,17 @@ def run(tier, seed, build):
                 res.violations.append({"signature": sig, "case": case, "root": snap["fns"][k]["name"],
                                        "detail": bad[2], "features": fl})
         res.sample({"label": label, "source": src, "impl_results": im["rounds"][0]["results"]}, cap=4)
+    # ---- the whole pipeline in ONE model: source text -> root context -> file / class / function analysers
+    # -> result generation -> printed document, against the real `rattr.__main__.main` (in-process) and,
+    # for a sample, the real CLI in a subprocess
+    from props import pipeline
+    pipeline.run_pipeline_stage(res, random.Random(seed + 7103), 60 if tier == "quick" else 800, model,
+                                cli_sample=6 if tier == "quick" else 40)
     res.assumptions = [
         "own IRs are taken from the real analyser (C01/C02 are about them); the resolver is the real find_call_target_and_ir (C06/C08/C11/C12 are about it)",
         "binding oracle = real CPython calls (see C04)",
         "[interp] a call Python rejects contributes no demanded substitution",
+        "pipeline stage: follow-imports 0, no starred imports; location facts (module found / blacklisted / excluded names) from the real locator functions; modules whose document depends on CPython's hash order of equal-named Call symbols are skipped (counted)",
     ]
     return res
 
